@@ -9,9 +9,9 @@ import time
 VERUS = "verus"
 
 
-def run_verus(path, rlimit=None, seed=None, timeout=1800, extra=None):
+def run_verus(path, rlimit=None, seed=None, timeout=1800, extra=None, multiple_errors=3):
     cmd = [VERUS, os.path.basename(path), "--triggers-mode", "silent", "--output-json", "--time",
-           "--error-format=json", "--multiple-errors", "4", "--num-threads", "4"]
+           "--error-format=json", "--multiple-errors", str(multiple_errors), "--num-threads", "6"]
     if rlimit:
         cmd += ["--rlimit", str(rlimit)]
     if seed:
